@@ -1,4 +1,5 @@
 import DateutilVerif.Properties.C05
+import DateutilVerif.Properties.TzObjGen   -- translator tie (wt-iso): tzlocal
 import DateutilVerif.Properties.TzGen   -- translator tie (wt-iso): obligations about the re-translated lookup functions
 #print axioms C05.mem_pre_iff
 #print axioms C05.pre_card_le_two
@@ -24,3 +25,5 @@ import DateutilVerif.Properties.TzGen   -- translator tie (wt-iso): obligations 
 #print axioms C05.gen_eq_model_tzinfo_is_ambiguous
 #print axioms C05.gen_eq_model_tzinfo_fold_status
 #print axioms C05.explicit_tz_wins
+#print axioms C05.gen_eq_model_tzlocal_is_ambiguous
+#print axioms C05.gen_eq_model_tzlocal_isdst
